@@ -141,6 +141,7 @@ def run(c):
                      {"example": path, "clause": "validating, digesting, verifying or extracting never changes an envelope"})
     # ---- generated invoices and payments ----
     g = cg.Gen(c.rng)
+    g.calc_only = True      # combos that calculate but would not validate (rate key under a country without regime)
     n = 3000 if quick else 150000
     docs = [d for d in (g.doc() for _ in range(n)) if cg.in_domain(d)[0]]
     base = cg.run3(docs)
